@@ -1,6 +1,7 @@
 import TwistedProps.C31.Account
 import TwistedProps.C31.Loss
 import TwistedProps.C31.Match
+import TwistedProps.C31.Tags
 /-!
 C31 — AMP matches answers to questions and fails pending calls on disconnect.
 
@@ -161,20 +162,147 @@ theorem loss_reason_is_own (ops : List Op) (id : Nat) (w : Why) (h : Ev.fired id
     ∃ s beh, Ev.called id s beh true ∈ (run ops).log ∧ Ev.lost s w ∈ (run ops).log :=
   answer_goes_to_its_own_question ops id _ h
 
-/-
-NOT PROVED (full statement kept visible):
+/-- **No box without a question**: on every schedule of two honest peers no exception ever escapes into the
+    reactor — `_outstandingRequests.pop(tag)` in `_answerReceived`/`_errorReceived` never raises `KeyError`
+    (a reply's tag always names an outstanding request of the receiver), and `sendBox` never raises
+    `ConnectionLost` out of `callRemote` (`transport is None` only after `_failAllReason` is set).
+    Proof: invariant `InvT` (TwistedProps/C31/Tags.lean) — for a caller that has not been told `connectionLost`,
+    the multiset of its tags in flight (in `_ask` boxes in the pipe or in the hand of the peer's `dataReceived`,
+    held by the peer's pending responder Deferreds, in `_answer`/`_error` boxes on the way back) is included in
+    the multiset of keys of its `_outstandingRequests`: a call adds its tag to both, the peer moves it along or
+    drops it, and `pop` takes one occurrence out of both — so a tag once popped is nowhere in flight any more. -/
+theorem no_box_without_question (ops : List Op) : (run ops).halted = false := (invT_run ops).nh
 
-  theorem no_box_without_question (ops : List Op) : (run ops).halted = false
+/-- … at every moment, every tag in flight towards or back to a connected caller is a key of its
+    `_outstandingRequests` (no more often than it is outstanding) -/
+theorem tags_in_flight_are_outstanding (ops : List Op) (u : Bool) (t : Nat)
+    (h : ((run ops).get u).failReason = none) :
+    (inflight (run ops) false [] u).count t ≤ (ptags ((run ops).get u).pending).count t :=
+  (invT_run ops).incl u h t
 
-i.e. `_outstandingRequests.pop(tag)` never raises `KeyError` (and `sendBox` never raises `ConnectionLost`
-out of `callRemote`) on any schedule of two honest peers.  It needs the *existence and uniqueness* half of the
-tag invariant (each tag in flight is held by exactly one of: an `_ask` in the pipe, a pending responder
-Deferred, a reply in the pipe — so no second reply can arrive for a tag already popped); `InvW` above carries
-only the half needed for matching (a tag in flight never stands for a different call).  What IS proved in its
-place: no Deferred fires twice (`never_fires_twice`), so a duplicate reply could at worst raise, never
-mis-deliver; and the correspondence check runs the model against the real code on every case and the oracle
-fails on any exception escaping `dataReceived` / `callRemote` / `connectionLost` (key `exception-escaped`).
--/
+theorem mem_firedIds {log : List Ev} {id : Nat} {o : Outcome} (h : Ev.fired id o ∈ log) : id ∈ firedIds log :=
+  List.mem_filterMap.mpr ⟨_, h, rfl⟩
+
+/-- a Deferred that fired once fired with one outcome -/
+theorem fired_unique {log : List Ev} {id : Nat} (h : fireCount log id ≤ 1) {o o' : Outcome}
+    (h1 : Ev.fired id o ∈ log) (h2 : Ev.fired id o' ∈ log) : o = o' := by
+  induction log with
+  | nil => simp at h1
+  | cons e es ih =>
+    have hle : fireCount es id ≤ fireCount (e :: es) id := by
+      simp only [fireCount, firedIds, List.filterMap_cons]
+      split
+      · exact Nat.le_refl _
+      · exact List.count_le_count_cons
+    have hhead : ∀ {p q : Outcome}, e = Ev.fired id p → Ev.fired id q ∈ es → False := by
+      intro p q he hq
+      have hm := mem_firedIds hq
+      have : 0 < (firedIds es).count id := List.count_pos_iff.mpr hm
+      subst he
+      simp only [fireCount, firedIds, List.filterMap_cons, firedId, List.count_cons_self] at h this
+      omega
+    rcases List.mem_cons.mp h1 with h1 | h1 <;> rcases List.mem_cons.mp h2 with h2 | h2
+    · rw [← h1] at h2; cases h2; rfl
+    · exact (hhead h1.symm h2).elim
+    · exact (hhead h2.symm h1).elim
+    · exact ih (Nat.le_trans hle h) h1 h2
+
+theorem run_append (ops : List Op) (op : Op) : run (ops ++ [op]) = step (run ops) op := by
+  simp [run, List.foldl_append]
+
+/-- **Unanswered at disconnect ⇒ the loss reason** (schedule level): a call of side `s` that has not fired when
+    `connectionLost(w)` is delivered to `s` fires, inside that `connectionLost`, with `w`. -/
+theorem unanswered_at_disconnect_fires_with_the_reason (ops : List Op) (id : Nat) (s : Bool) (beh : Beh) (w : Why)
+    (h : Ev.called id s beh true ∈ (run ops).log) (hn : fireCount (run ops).log id = 0) :
+    Ev.fired id (.connLost w) ∈ (run (ops ++ [.lost s w])).log := by
+  rcases every_callRemote_fires_exactly_once ops id s beh h with h1 | ⟨_, h2, h3⟩
+  · omega
+  · rw [run_append]
+    unfold step
+    simp only [no_box_without_question ops, Bool.false_eq_true, if_false, apply]
+    obtain ⟨p, hp, hid⟩ := List.mem_map.mp h2
+    have := (unanswered_at_disconnect_fail_with_reason (logEv (run ops) .sep) s w (by simpa using h3)).1 p
+      (by simpa using hp)
+    rw [hid] at this
+    exact this
+
+/-- **Calls made after the connection is lost fail immediately** (schedule level) -/
+theorem call_after_loss_fires_at_once (ops : List Op) (s : Bool) (w : Why) (beh : Beh) (handled : Bool) (follow : List Beh)
+    (h : ((run ops).get s).failReason = some w) :
+    Ev.called (run ops).nextId s beh true ∈ (run (ops ++ [.call s beh true handled follow])).log ∧
+    Ev.fired (run ops).nextId (.connLost w) ∈ (run (ops ++ [.call s beh true handled follow])).log ∧
+    ((run (ops ++ [.call s beh true handled follow])).get s).written = ((run ops).get s).written := by
+  rw [run_append]
+  unfold step
+  simp only [no_box_without_question ops, Bool.false_eq_true, if_false, apply]
+  have := calls_after_loss_fail_immediately (logEv (run ops) .sep) s w beh handled follow (by simpa using h)
+  refine ⟨?_, by simpa using this.1, by simpa using this.2.1⟩
+  unfold callRemote
+  simp only [logEv_get, get_withNextId, h, if_true]
+  exact mem_log_fireUser _ _ _ (by simp)
+
+/-- **C31, the whole statement in one theorem.**  For EVERY schedule `ops` (calls of either peer with any responder
+    behaviour — answering at once, later, in any order, with a declared, fatal or undeclared error, never, or not
+    existing —, requiresAnswer or not, handled or not, with follow-up calls made inside callbacks; deliveries of any
+    numbers of bytes; `connectionLost` of either side at any point), at the end of `ops` — hence, every prefix of a
+    schedule being a schedule, at every moment —:
+
+    1. no exception has escaped (`_outstandingRequests.pop(tag)` found its key every time; `sendBox` never raised);
+    2. every `callRemote` that returned a Deferred (`Ev.called id s beh true`) is in exactly one of two situations:
+       * **fired exactly once**, with one outcome `o`, which is *its own* (`Good`): the response / declared error of
+         the responder invocation for call `id` itself (carrying `id`), `UnknownRemoteError` only if its own responder
+         failed undeclared, `UnhandledCommand` only if its command has no responder, or the connection-loss reason
+         passed to its own side's `connectionLost` — and it is no longer in `_outstandingRequests`;
+       * **not fired yet**: still in `_outstandingRequests` of its caller, whose connection is not lost
+         (so `connectionLost` will fire it with the reason: `unanswered_at_disconnect_fail_with_reason`).
+       In particular a call of a side that has been told `connectionLost` — whether made before (unanswered at
+       disconnect) or after — has fired exactly once;
+    3. **unanswered at disconnect**: if `connectionLost(w)` is delivered next to the caller of a call that has not
+       fired, the call fires (inside that `connectionLost`) with the reason `w`;
+    4. **calls made after the connection is lost fail immediately**: if the next operation is a `callRemote` on a
+       side that was told `connectionLost(w)`, its Deferred (call number `nextId`) has already failed with `w` when
+       `callRemote` returns, and nothing was written to the transport. -/
+theorem every_callRemote_fires_exactly_once_with_its_own_answer (ops : List Op) :
+    (run ops).halted = false ∧
+    (∀ id s beh, Ev.called id s beh true ∈ (run ops).log →
+      (∃ o, Ev.fired id o ∈ (run ops).log ∧ Good (run ops).log id o ∧
+        fireCount (run ops).log id = 1 ∧ (∀ o', Ev.fired id o' ∈ (run ops).log → o' = o) ∧
+        id ∉ ids ((run ops).get s).pending) ∨
+      ((∀ o, Ev.fired id o ∉ (run ops).log) ∧ fireCount (run ops).log id = 0 ∧
+        id ∈ ids ((run ops).get s).pending ∧ ((run ops).get s).failReason = none)) ∧
+    (∀ id s beh w, Ev.called id s beh true ∈ (run ops).log → fireCount (run ops).log id = 0 →
+      Ev.fired id (.connLost w) ∈ (run (ops ++ [.lost s w])).log) ∧
+    (∀ s w beh handled follow, ((run ops).get s).failReason = some w →
+      Ev.called (run ops).nextId s beh true ∈ (run (ops ++ [.call s beh true handled follow])).log ∧
+      Ev.fired (run ops).nextId (.connLost w) ∈ (run (ops ++ [.call s beh true handled follow])).log ∧
+      ((run (ops ++ [.call s beh true handled follow])).get s).written = ((run ops).get s).written) := by
+  refine ⟨no_box_without_question ops, ?_,
+    fun id s beh w h hn => unanswered_at_disconnect_fires_with_the_reason ops id s beh w h hn,
+    fun s w beh handled follow h => call_after_loss_fires_at_once ops s w beh handled follow h⟩
+  intro id s beh h
+  rcases every_callRemote_fires_exactly_once ops id s beh h with ⟨h1, h2⟩ | ⟨h1, h2, h3⟩
+  · left
+    have hm : id ∈ firedIds (run ops).log := by
+      apply List.count_pos_iff.mp
+      unfold fireCount at h1; omega
+    obtain ⟨e, he, hid⟩ := List.mem_filterMap.mp hm
+    cases e <;> simp only [firedId, Option.some.injEq] at hid <;> try exact absurd hid (by simp)
+    rename_i id' o
+    subst hid
+    exact ⟨o, he, answer_goes_to_its_own_question ops _ o he, h1,
+      fun o' ho' => fired_unique (Nat.le_of_eq h1) ho' he, h2⟩
+  · right
+    refine ⟨fun o ho => ?_, h1, h2, h3⟩
+    have := List.count_pos_iff.mpr (mem_firedIds ho)
+    unfold fireCount at h1; omega
+
+/-- … so once a side has been told `connectionLost`, each of its calls has fired exactly once with its own outcome -/
+theorem after_loss_every_call_has_its_answer (ops : List Op) (id : Nat) (s : Bool) (beh : Beh)
+    (h : Ev.called id s beh true ∈ (run ops).log) (hl : ((run ops).get s).failReason ≠ none) :
+    ∃ o, Ev.fired id o ∈ (run ops).log ∧ Good (run ops).log id o ∧ fireCount (run ops).log id = 1 := by
+  rcases (every_callRemote_fires_exactly_once_with_its_own_answer ops).2.1 id s beh h with ⟨o, h1, h2, h3, _⟩ | h1
+  · exact ⟨o, h1, h2, h3⟩
+  · exact absurd h1.2.2.2 hl
 
 /-! ### non-vacuity: concrete schedules -/
 
@@ -201,5 +329,23 @@ example : (run [.call true .unk true true [], .call true .nores true true [], .d
 
 example : let st := run (demo.take 7)
     (st.get false).failReason = none ∧ (st.get false).pending.map (·.2.id) = [2] := by decide
+
+/-- the model CAN raise: a forged reply (no such question) makes `pop` raise `KeyError`, and a call on a side whose
+    transport is gone without `_failAllReason` makes `sendBox` raise — `no_box_without_question` says that no schedule
+    of two honest peers gets there -/
+example : (replyReceived {} false 1 .ok 0).halted = true ∧
+    (callRemote { a := { transportNone := true } } false .ok true true []).halted = true := by decide
+
+example : (run demo).halted = false ∧ (run demo).log.filter (· == .sep) = List.replicate 9 .sep := by decide
+
+/-- parts 3 and 4 of the headline on `demo`: call 2 is unanswered when side 0 loses the connection; call 4 is made afterwards -/
+example : Ev.called 2 false .later true ∈ (run (demo.take 7)).log ∧ fireCount (run (demo.take 7)).log 2 = 0 ∧
+    Ev.fired 2 (.connLost .lost) ∈ (run (demo.take 7 ++ [.lost false .lost])).log ∧
+    ((run (demo.take 8)).get false).failReason = some .lost ∧ (run (demo.take 8)).nextId = 4 := by decide
+
+/-- in the middle of `demo` three tags of side 0 are in flight: two held by responder Deferreds of the peer, one in an
+    `_answer` box on its way back -/
+example : inflight (run (demo.take 4)) false [] false = [1, 3, 2] ∧
+    ptags ((run (demo.take 4)).get false).pending = [1, 2, 3] := by decide
 
 end TwistedProps.C31
